@@ -82,6 +82,26 @@ def features(prog):
     return sorted(out)
 
 
+def loop_overshoots(prog):
+    """True iff some loop's index steps over its stop value (stop - start not a multiple of step, or start beyond stop)"""
+    hit = False
+
+    def walk(sts):
+        nonlocal hit
+        for st in sts:
+            if st[0] == "loop":
+                start, step = (st[4] if len(st) > 4 else 0), (st[5] if len(st) > 5 else 1)
+                if start > st[1] or (st[1] - start) % step != 0:
+                    hit = True
+                walk(st[3])
+            else:
+                for x in st:
+                    if isinstance(x, list) and x and isinstance(x[0], list):
+                        walk(x)
+    walk(prog)
+    return hit
+
+
 def reg_clobber_window(prog):
     """True iff a register handle (RegFuture) is used in a later subroutine than the one that created it AND other statements were
     compiled in between (after the creating subroutine was flushed): the window in which the recorded finding
@@ -153,6 +173,8 @@ def make_body(spec, falsify=False):
         conn = PipeConnection("app", executor=ex, max_qubits=spec.get("max_qubits", 3))
         sdk = SdkInterp(conn)
         site = {"features": features(prog0), "reg_clobber_window": reg_clobber_window(prog0)}
+        if loop_overshoots(prog0):
+            site["loop_overshoots"] = True
         obs = []
         nflush = 0
         for st in prog:
@@ -171,7 +193,7 @@ def make_body(spec, falsify=False):
                     # measurement into a register was not executed (its branch / loop body was not taken)
                     skipped = [n for n in measured_regs(prog0) if n not in ref.regs]
                     why = "ret_reg_of_unexecuted_measurement" if skipped else "ret_reg_undefined_although_measured"
-                obs.append(Ob("pipeline_raises", False, {"exc": type(e).__name__, "why": why, "at": st[0]},
+                obs.append(Ob("pipeline_raises", False, dict({"exc": type(e).__name__, "why": why, "at": st[0]}, **({"loop_overshoots": True} if site.get("loop_overshoots") else {})),
                               info=f"{type(e).__name__}: {str(e)[:300]}"))
                 return obs
             if st[0] != "flush":
@@ -273,6 +295,10 @@ def loop_atoms(seg):
         [["enum", "A", [["add", ["elt"], ["ix"], None]]]],
         [["loop", 2, "ctx", [["add", ["f", "A", ["ix"]], ["k"], None]]]],
         [["loop", 2, "body", [["add", R, ["ix"], None]]]],
+        [["loop", 3, "ctx", [["add", R, ["ix"], None]], 1]],
+        [["loop", 5, "body", [["add", ["f", "A", 0], ["ix"], None]], 1, 2]],
+        [["loop", 6, "ctx", [["add", R, ["k"], None]], 2, 2]],
+        [["loop", 4, "body", [["add", ["f", "A", 0], ["ix"], None]], 1, 2]],       # the index steps over `stop` (recorded finding)
         [["foreach", "A", [["if", "eq", ["elt"], ["k"], "ctx", [["add", R, ["k"], None]]]]]],
         [["foreach", "A", [["q", q], ["if", "nz", ["elt"], None, "ctx", [["g", q, "X"]]], ["m", q, ["f", "B", 0], False]]]],
         [["enum", "A", [["q", q], ["g", q, "H"], ["m", q, ["f", "B", ["ix"]], False]]]],
